@@ -44,17 +44,22 @@ from vlib import env
 THEOREMS = [
     "testament_storage_order_independent",
     "testament_injective_partial",
+    "testament_sensitive_partial",
     "testament_sensitive_scalars",
     "testament_sensitive_raw_partial",
     "splitlines_no_newline",
     "escape_inj_iff",
     "entryLine_inj",
+    "message_line_boundaries_collision",
     "message_trailing_newline_witness",
     "message_separator_witness",
+    "revprop_line_boundaries_witness",
     "path_backslash_witness",
+    "symlink_target_backslash_witness",
     "timestamp_subsecond_witness",
     "parents_order_witness",
     "v1_exec_witness",
+    "rec0_ok",
 ]
 RULE = ("records drawn from a grammar over ids/names/messages containing every delimiter the code "
         "looks at; a case is one (record, class-set) evaluation; non-trivial = the record has at "
@@ -157,7 +162,10 @@ def gen_record(rng, wild=False):
         n = _word(rng, ID_ALPH + ["k", "p"], 1 if rng.random() < 0.95 else 0, 4)
         if n in [p[0] for p in props]:
             continue
-        props.append([n, _text(rng, wild, 3)])
+        val = _text(rng, wild, 3)
+        if not wild and val and not val.strip():
+            val += "x"      # pack-0.92 (XML) does not store whitespace-only values faithfully
+        props.append([n, val])
     ts = rng.choice([0, 1, -1, 999, 1000, 1001, -999, -1000, -1500, 1700,
                      rng.randint(-10**7, 10**7), rng.randint(0, 2 * 10**12)])
     tz = rng.choice([0, 3600, -3600, 19800, -34200, rng.randint(-50000, 50000)])
@@ -168,8 +176,11 @@ def gen_record(rng, wild=False):
         p = _ident(rng, rng.choice(["rev-", "p", ""]))
         if p not in parents:
             parents.append(p)
+    message = _text(rng, wild)
+    if not wild and message and not message.strip():
+        message += "x"          # whitespace-only messages are not stored faithfully by pack-0.92 (XML)
     return dict(rid=rid, committer=_word(rng, MSG_ALPH + ["<", ">", "@"], 0, 8), ts_ms=ts, tz=tz,
-                parents=parents, message=_text(rng, wild), root_id=_ident(rng, "root-"),
+                parents=parents, message=message, root_id=_ident(rng, "root-"),
                 root_rev=rid, entries=entries, props=props, wild=wild)
 
 
@@ -338,19 +349,25 @@ def make_testaments(rec, mode):
         except (ValueError, AssertionError) as e:
             out[v] = e
     stored = repo.get_revision(rid)
-    faithful = (stored.message == rec["message"] and stored.committer == rec["committer"]
-                and abs(stored.timestamp * 1000 - rec["ts_ms"]) < 0.25
-                and (stored.timezone or 0) == (rec["tz"] or 0)
-                and list(stored.parent_ids) == [_b(p) for p in rec["parents"]]
-                and dict(stored.properties) == dict((k, v) for k, v in rec["props"]))
-    if faithful:
+    faithful = True
+    for what, ok in (("message", stored.message == rec["message"]),
+                     ("committer", stored.committer == rec["committer"]),
+                     ("timestamp", abs(stored.timestamp * 1000 - rec["ts_ms"]) < 0.25),
+                     ("timezone", (stored.timezone or 0) == (rec["tz"] or 0)),
+                     ("parents", list(stored.parent_ids) == [_b(p) for p in rec["parents"]]),
+                     ("props", dict(stored.properties) == dict((k, v) for k, v in rec["props"]))):
+        if not ok:
+            faithful = what
+            break
+    if faithful is True:
         sinv = repo.get_inventory(rid)
+
         def sig(i):
             return sorted((p, ie.kind, ie.file_id, ie.revision, getattr(ie, "text_sha1", None),
                            getattr(ie, "symlink_target", None), getattr(ie, "executable", False))
                           for p, ie in i.iter_entries())
-        want, got = sig(inv), sig(sinv)
-        faithful = want == got
+        if sig(inv) != sig(sinv):
+            faithful = "inventory"
     repo.unlock()
     return out, faithful
 
@@ -457,6 +474,13 @@ def _text_perturb(rng, s, wild):
     return _edit(rng, s, MSG_ALPH + ["\n"])
 
 
+def _storable(r):
+    """ids the repository layers accept as keys (non-empty, not reserved)"""
+    ids = [r["rid"], r["root_id"], r["root_rev"]] + r["parents"] + \
+        [e["fid"] for e in r["entries"]] + [e["rev"] for e in r["entries"]]
+    return all(i and not i.endswith(":") for i in ids)
+
+
 def perturb(rng, rec):
     """(field, attesting classes, new record) or None"""
     import copy
@@ -542,15 +566,16 @@ def perturb(rng, rec):
         i = rng.randrange(len(r["entries"]))
         e = r["entries"][i]
         if k == "path":
-            parent, _, name = e["path"].rpartition("/")
+            leafs = [o for o in r["entries"] if "/" in o["path"]
+                     and not any(q["path"].startswith(o["path"] + "/") for q in r["entries"])]
             rr = rng.random()
-            if rr < 0.25 and "/" in e["path"] and not any(o["path"].startswith(e["path"] + "/") for o in r["entries"]):
-                # move up: a/b -> a\b  (aimed at the backslash normalisation)
-                n = e["path"].replace("/", "\\", 1)
-                newpath = n
-                if "/" in n:
-                    return None
+            if rr < 0.3 and leafs:
+                # d/f -> a file literally named "d\f" next to d (aimed at the backslash normalisation)
+                e = rng.choice(leafs)
+                head, _, name = e["path"].rpartition("/")
+                newpath = head + "\\" + name
             else:
+                parent, _, name = e["path"].rpartition("/")
                 if rr < 0.5 and "\\" in name:
                     n = name.replace("\\", "|", 1)
                 elif rr < 0.6 and " " in name:
@@ -607,8 +632,6 @@ def perturb(rng, rec):
             r["entries"].pop(i)
         elif k == "kind":
             if e["kind"] == "f":
-                if any(False for _ in ()):
-                    return None
                 e.update(kind="l", target="tgt", content="", exec=False)
             elif e["kind"] == "l":
                 e.update(kind="f", target="", content="c")
@@ -616,7 +639,7 @@ def perturb(rng, rec):
                 if any(o["path"].startswith(e["path"] + "/") for o in r["entries"]):
                     return None
                 e.update(kind="f", content="c")
-    if r == rec:
+    if r == rec or not _storable(r):
         return None
     return k, cls, r
 
@@ -743,8 +766,10 @@ class _Batch:
 def _observe(ctx, batch, rec, mode, tag):
     """build `rec` in `mode`, add the T2 lines, return {variant: (text|err, short)}"""
     ts, faithful = make_testaments(rec, mode)
-    if faithful is False:
-        ctx.count("storage-not-faithful:" + mode)
+    if faithful not in (None, True):
+        # the format did not store the record as given (an XML serialiser limitation, not a
+        # testament matter): the precondition "same attested data" does not hold
+        ctx.count("storage-not-faithful:%s:%s" % (mode, faithful))
         return None
     res = {}
     for v in VARIANTS:
@@ -868,7 +893,7 @@ def pure_streams(ctx, rng, n):
 def run(ctx):
     rng = ctx.rng
     batch = _Batch(ctx)
-    n_base = ctx.pick(70, 600)
+    n_base = ctx.pick(200, 2500)
     n_pert = ctx.pick(7, 10)
     pure_streams(ctx, rng, ctx.pick(400, 4000))
     for i in range(n_base):
